@@ -54,9 +54,9 @@ class ClassInfo(object):
                             self.attrs[t.id] = ("expr", st.value)
                         self.order.append(t.id)
                     elif isinstance(t, ast.Tuple):
-                        for e in t.elts:
+                        for i, e in enumerate(t.elts):
                             if isinstance(e, ast.Name):
-                                self.attrs[e.id] = ("expr", st.value)
+                                self.attrs[e.id] = ("unpack", (st.value, i))
                                 self.order.append(e.id)
             elif isinstance(st, ast.AnnAssign) and isinstance(st.target, ast.Name):
                 if st.value is not None:
